@@ -805,6 +805,36 @@ func checkC15(c *Ctx) {
 		}
 	}
 
+	// ---- stream 11: the texts the environment-source generator (C11) writes for collection leaves - bare words, numbers,
+	// floats, durations, quoted strings, malformed ones - through the scanner model and the text-to-value model
+	n11 := c.scale(2500, 200000)
+	collTypes := []reflect.Type{reflect.TypeOf([]string{}), reflect.TypeOf([]int8{}), reflect.TypeOf([]uint16{}), reflect.TypeOf([]float64{}),
+		reflect.TypeOf([]time.Duration{}), reflect.TypeOf([]bool{}), reflect.TypeOf(map[string]int{}), reflect.TypeOf(map[string]string{}),
+		reflect.TypeOf(map[string]struct{}{}), reflect.TypeOf(map[string][]string{}), reflect.TypeOf(map[int]bool{})}
+	for i := 0; i < n11; i++ {
+		t := collTypes[r.Intn(len(collTypes))]
+		var text string
+		if pn := catch(func() { text, _ = genEnvValue(r, t) }); pn != "" {
+			continue
+		}
+		what := []string{"slice", "set", "map", "mmap"}[r.Intn(4)]
+		var impl string
+		var toks []string
+		pn := catch(func() { impl, toks = run(what, text) })
+		cs := map[string]any{"stream": "env-style-" + what, "type": t.String(), "text": text, "hex": hexEnc(text)}
+		if pn != "" {
+			res.Add(Finding{Kind: "violation", What: "collection parser panicked: " + pn, Case: cs})
+			continue
+		}
+		res.Count("envstyle/" + what + "/" + strings.SplitN(impl, " ", 2)[0])
+		if model := modelOf(what, text, toks); canonRes(what, impl) != canonRes(what, model) {
+			res.Add(Finding{Kind: "disagreement", What: "collection parser on env-style text: state-machine model on the real token stream != implementation", Case: cs, Observed: impl, Model: model})
+		}
+		scanTie(what, text, toks, cs)
+		textTie(what, text, impl, cs)
+		res.Case("11|"+what+"|"+text, len(toks) >= 2, cs)
+	}
+
 	// ---- stream 4: floats, complex, bool, duration, string (oracle only)
 	f32, f64 := reflect.TypeOf(float32(0)), reflect.TypeOf(float64(0))
 	for i := 0; i < n4; i++ {
